@@ -22,7 +22,7 @@ import (
 // new streams increase per parity as in serverConn; only open streams are closed
 // or get stream frames; ...).
 type c12Op struct {
-	K string `json:"k"` // open close adj push pop swnd cwnd mfs
+	K string `json:"k"` // open close adj push pop popc swnd cwnd mfs
 
 	Sel    int  `json:"sel,omitempty"`    // which open stream / which known id
 	Pushed bool `json:"pushed,omitempty"` // open: server push (even id, PusherID = open stream Sel)
@@ -37,7 +37,8 @@ type c12Op struct {
 	Field  string `json:"field,omitempty"` // adj: Priority field value to run through parseRFC9218Priority; U/I hold the expected result
 
 	F    string `json:"f,omitempty"`    // push: data headers cont100 swu panicrst pp | ping pingack cwu settings rst
-	N    int    `json:"n,omitempty"`    // push data: payload length; pop: repeat count
+	N    int    `json:"n,omitempty"`    // push data: payload length; pop: repeat count; popc: rounds
+	Ctl  int    `json:"ctl,omitempty"`  // popc: control frames pushed before each stream-frame Pop
 	End  bool   `json:"end,omitempty"`  // push data/headers: END_STREAM
 	Done bool   `json:"done,omitempty"` // push: request carries a done channel
 
@@ -49,7 +50,11 @@ type c12Case struct {
 	InitWnd int32   `json:"init_wnd"` // initial stream send window
 	ConnWnd int32   `json:"conn_wnd"`
 	MFS     int32   `json:"mfs"`
-	Ops     []c12Op `json:"ops"`
+	// DrainCtl > 0: during the final drain, DrainCtl control frames (PING acks) are
+	// pushed before every Pop that is expected to deliver a stream frame, as a server
+	// answering PINGs / sending WINDOW_UPDATEs while it writes responses does.
+	DrainCtl int     `json:"drain_ctl,omitempty"`
+	Ops      []c12Op `json:"ops"`
 }
 
 var c12Scheds = map[string]func() WriteScheduler{
@@ -424,6 +429,33 @@ func (w *c12World) apply1(op c12Op) error {
 				break
 			}
 		}
+	case "popc":
+		// rounds of: push Ctl control frames, then Pop Ctl+1 times
+		rounds, k := op.N, op.Ctl
+		if rounds < 1 {
+			rounds = 1
+		}
+		if k < 1 {
+			k = 1
+		}
+		kinds := []string{"pingack", "cwu", "settings", "ping"}
+		for r := 0; r < rounds; r++ {
+			for j := 0; j < k; j++ {
+				if err := w.push(c12Op{K: "push", F: kinds[(r+j)%len(kinds)]}); err != nil {
+					return err
+				}
+			}
+			for j := 0; j <= k; j++ {
+				p, err := w.pop()
+				if err != nil {
+					return err
+				}
+				if !p.ok {
+					return nil
+				}
+			}
+		}
+		w.rec.Class("pop-rounds-with-interleaved-control")
 	case "swnd":
 		if len(w.openIDs) == 0 {
 			return errC12Skip
@@ -709,9 +741,34 @@ func (w *c12World) drain() (err error) {
 			total += 1 + (len(f.data) - f.off)
 		}
 	}
+	dc := w.c.DrainCtl
+	if dc < 0 {
+		dc = 0
+	}
+	if dc > 0 {
+		w.rec.Class("drain-with-interleaved-control")
+	}
+	limit := (total+1)*(dc+1) + 1
+	afterStreamFrame := true
 	for k := 0; ; k++ {
-		if k > total+1 {
+		if k > limit {
 			return w.errf("drain: more Pops succeeded than frames are queued")
+		}
+		if dc > 0 && afterStreamFrame && len(w.control) == 0 {
+			pending := false
+			for _, s := range w.openStreams() {
+				if len(s.q) > 0 {
+					pending = true
+					break
+				}
+			}
+			if pending {
+				for j := 0; j < dc; j++ {
+					if err := w.push(c12Op{K: "push", F: "pingack"}); err != nil {
+						return err
+					}
+				}
+			}
 		}
 		p, err := w.pop()
 		if err != nil {
@@ -720,6 +777,7 @@ func (w *c12World) drain() (err error) {
 		if !p.ok {
 			break
 		}
+		afterStreamFrame = !p.control
 	}
 	return nil
 }
@@ -783,11 +841,11 @@ var c12PriorityFields = []struct {
 // c12OpGen draws one op. wide: DATA sizes / frame sizes up to a few KB as well
 // (for the write throttle); prio: bias for C13 (many priorities, long pop runs).
 func c12OpGen(prio bool) *rapid.Generator[c12Op] {
-	kinds := c12Weighted[string]("open", 4, "close", 2, "adj", 2, "push", 9, "pop", 6, "swnd", 2, "cwnd", 1, "mfs", 1)
+	kinds := c12Weighted[string]("open", 4, "close", 2, "adj", 2, "push", 9, "pop", 6, "popc", 1, "swnd", 2, "cwnd", 1, "mfs", 1)
 	frames := c12Weighted[string]("data", 10, "headers", 3, "cont100", 1, "swu", 1, "panicrst", 1, "pp", 1,
 		"ping", 1, "pingack", 1, "cwu", 1, "settings", 1, "rst", 2)
 	if prio {
-		kinds = c12Weighted[string]("open", 4, "close", 1, "adj", 3, "push", 10, "pop", 5, "swnd", 2, "cwnd", 1, "mfs", 1)
+		kinds = c12Weighted[string]("open", 4, "close", 1, "adj", 3, "push", 10, "pop", 4, "popc", 2, "swnd", 2, "cwnd", 1, "mfs", 1)
 		frames = c12Weighted[string]("data", 14, "headers", 3, "swu", 1, "ping", 1, "rst", 1)
 	}
 	urg := c12Weighted[uint8](uint8(3), 5, uint8(0), 1, uint8(1), 2, uint8(2), 1, uint8(4), 1, uint8(5), 1, uint8(6), 1, uint8(7), 1)
@@ -841,6 +899,9 @@ func c12OpGen(prio bool) *rapid.Generator[c12Op] {
 			} else {
 				op.N = rapid.SampledFrom([]int{1, 1, 1, 2, 3, 6}).Draw(t, "n")
 			}
+		case "popc":
+			op.N = rapid.SampledFrom([]int{1, 2, 3, 5, 8, 13, 30}).Draw(t, "n")
+			op.Ctl = rapid.SampledFrom([]int{1, 1, 1, 2, 3}).Draw(t, "ctl")
 		case "swnd":
 			op.Sel = rapid.IntRange(0, 7).Draw(t, "sel")
 			op.D = int32(rapid.OneOf(rapid.IntRange(-20, 40), rapid.SampledFrom([]int{-2000, 1, 1024, 3000, 65535})).Draw(t, "d"))
@@ -858,6 +919,7 @@ func c12CaseGen(t *rapid.T, scheds []string, prio bool, maxOps int) c12Case {
 	c.InitWnd = int32(rapid.SampledFrom([]int{0, 1, 5, 16, 30, 30, 100, 3000, 65535}).Draw(t, "initWnd"))
 	c.ConnWnd = int32(rapid.SampledFrom([]int{0, 7, 40, 100, 100, 500, 5000, 65535, 1 << 20}).Draw(t, "connWnd"))
 	c.MFS = int32(rapid.SampledFrom([]int{1, 2, 3, 4, 7, 16, 16, 1024, 16384}).Draw(t, "mfs"))
+	c.DrainCtl = rapid.SampledFrom([]int{0, 0, 0, 1, 1, 2, 3}).Draw(t, "drainCtl")
 	// rapid's slices average ~5 elements; a slice of slices gives histories of a few
 	// dozen operations and still shrinks towards the empty history.
 	for _, chunk := range rapid.SliceOfN(rapid.SliceOfN(c12OpGen(prio), 1, 16), 1, maxOps/8).Draw(t, "ops") {
